@@ -154,12 +154,53 @@ impl ValSweep {
         (f.map(|(kind, d)| Failure { prop: "C17".into(), kind, step: k, detail: format!("alpha index {k}: {d}") }), evals)
     }
 
+    /// two texts that collide under a common 32-bit hash function, parsed one right after the
+    /// other (in both orders): each comes back as itself, the two labels differ, an edge bound
+    /// under one is not found under the other; the same for the two byte strings as Hex texts
+    fn hash_twins(&self, k: usize) -> (Option<Failure>, u64) {
+        use std::str::FromStr;
+        let Some(t) = crate::twins::hash_twins().get(k) else { return (None, 0) };
+        let fail = |kind: &str, d: String| (Some(Failure { prop: self.prop.into(), kind: kind.into(), step: k, detail: format!("twins {:?} / {:?} (equal {}): {d}", t.a, t.b, t.hash) }), 1);
+        if self.prop == "C15" {
+            for (x, y) in [(&t.a, &t.b), (&t.b, &t.a)] {
+                let (hx, hy) = (sodg::Hex::from_str_bytes(x), sodg::Hex::from_str_bytes(y));
+                let (px, py) = (hx.print(), hy.print());
+                let (rx, ry) = (sodg::Hex::from_str(&px), sodg::Hex::from_str(&py));
+                if hy.to_vec() != y.as_bytes() || hx == hy || ry.as_ref().map(|h| h.to_vec()).ok() != Some(y.as_bytes().to_vec()) || rx.as_ref().map(|h| h.to_vec()).ok() != Some(x.as_bytes().to_vec()) {
+                    return fail("hex.twins", format!("from_str_bytes/print/from_str of {x:?} then {y:?}: {px} {py} {:?} {:?}", rx.map(|h| h.print()).ok(), ry.map(|h| h.print()).ok()));
+                }
+            }
+            return (None, 2);
+        }
+        for (x, y) in [(&t.a, &t.b), (&t.b, &t.a)] {
+            let (lx, ly) = (Label::from_str(x), Label::from_str(y));
+            let (Ok(lx), Ok(ly)) = (lx, ly) else { return fail("label.rejects_valid", format!("parsing {x:?} then {y:?} failed")) };
+            if ly.to_string() != **y || lx.to_string() != **x {
+                return fail("label.text_roundtrip", format!("parsed {x:?} then {y:?}: they print as {:?} and {:?}", lx.to_string(), ly.to_string()));
+            }
+            if lx == ly {
+                return fail("label.not_injective", format!("parsed {x:?} then {y:?}: the labels are equal"));
+            }
+            let mut g: sodg::Sodg<4> = sodg::Sodg::empty(4);
+            g.add(0);
+            g.add(1);
+            g.bind(0, 1, lx);
+            if g.kid(0, ly).is_some() || g.kid(0, Label::from_str(y).unwrap_or(ly)).is_some() || g.kid(0, Label::from_str(x).unwrap_or(lx)) != Some(1) {
+                return fail("label.lookup", format!("an edge bound under {x:?} is found under {y:?} (or not under {x:?})"));
+            }
+        }
+        (None, 2)
+    }
+
     /// the points of this property as (dimension, a, b)
     fn points(&self) -> Vec<(&'static str, u64, u64)> {
         let t = self.thorough;
         let mut v = vec![];
         match self.prop {
             "C15" => {
+                for k in 0..crate::twins::hash_twins().len() as u64 {
+                    v.push(("hash-twins", k, 0));
+                }
                 for l in 0..=if t { 9000u64 } else { 2100 } {
                     v.push(("hex-length", l, 0));
                 }
@@ -224,6 +265,9 @@ impl ValSweep {
                 }
             }
             "C17" => {
+                for k in 0..crate::twins::hash_twins().len() as u64 {
+                    v.push(("hash-twins", k, 0));
+                }
                 for c in 0..0x11_0000u64 {
                     if char::from_u32(c as u32).is_some() {
                         v.push(("label-character", c, 0));
@@ -252,6 +296,7 @@ impl ValSweep {
                 None => (None, 0),
             },
             "alpha-index" => self.label_alpha(a as usize),
+            "hash-twins" => self.hash_twins(a as usize),
             _ => (None, 0),
         }
     }
